@@ -133,7 +133,9 @@ theorem ay_createPromiseChild (pc : CreatePromiseCmd) (tc : Option CreateTaskCmd
   split
   · split
     · exact hk _
-    · exact ay_childStore _ _ _ (wfC_childCmd pc tc _ htc) hk
+    · split
+      · exact hk _
+      · exact ay_childStore _ _ _ (wfC_childCmd pc tc _ htc) hk
   · exact AllYields.panic _
 
 theorem ay_createPromiseInner (req : CreatePromiseReq) (tc : Option CreateTaskCmd) (wt : Bool) (t0 : Time)
@@ -352,25 +354,28 @@ theorem ay_schedulePromises (env : Env) (t0 : Time) : AllYields WfC (schedulePro
         · intro t2 rcs
           split
           · ay_leaf
-          · refine AllYields.yield _ _ ?_ (by intro t3 c3; ay_go)
-            intro tx hm
-            simp only [List.mem_map] at hm
-            obtain ⟨⟨⟨pc, upd⟩, rc⟩, hmem, hx⟩ := hm
-            -- `upd` is the UpdateSchedule built for this item
-            have hupd : upd.loose = true := by
-              have h1 := List.of_mem_zip hmem
-              have h2 := h1.1
-              simp only [List.mem_filterMap] at h2
-              obtain ⟨r, _, hr⟩ := h2
-              split at hr
-              · injection hr with hr; injection hr with _ hr; subst hr; rfl
-              · cases hr
-            split at hx
-            · injection hx with hx; subst hx
-              refine ⟨?_, by simp⟩
-              cases upd <;> simp_all [wfCore, wfCmdsP, wfPromiseAndTask, Cmd.loose, Cmd.free, T_INIT]
-            · injection hx with hx; subst hx
-              exact wfC_loose _ (by simp) (by intro c hc; simp at hc; rcases hc with rfl | rfl <;> first | rfl | exact hupd)
+          · split
+            · ay_leaf
+            · refine AllYields.yield _ _ ?_ (by intro t3 c3; ay_go)
+              intro tx hm
+              simp only [List.mem_map] at hm
+              obtain ⟨⟨⟨pc, upd⟩, rc⟩, hmem0, hx⟩ := hm
+              have hmem := (List.mem_filter.mp hmem0).1
+              -- `upd` is the UpdateSchedule built for this item
+              have hupd : upd.loose = true := by
+                have h1 := List.of_mem_zip hmem
+                have h2 := h1.1
+                simp only [List.mem_filterMap] at h2
+                obtain ⟨r, _, hr⟩ := h2
+                split at hr
+                · injection hr with hr; injection hr with _ hr; subst hr; rfl
+                · cases hr
+              split at hx
+              · injection hx with hx; subst hx
+                refine ⟨?_, by simp⟩
+                cases upd <;> simp_all [wfCore, wfCmdsP, wfPromiseAndTask, Cmd.loose, Cmd.free, T_INIT]
+              · injection hx with hx; subst hx
+                exact wfC_loose _ (by simp) (by intro c hc; simp at hc; rcases hc with rfl | rfl <;> first | rfl | exact hupd)
   · ay_go
 
 /-! ### every registered coroutine -/
